@@ -233,7 +233,7 @@ Definition lthread_ok (clock : Z) (log : list (A * Z)) (t : lthread) : Prop :=
   | LKey now | LIterNew now | LIter now _ _ _ | LDel now _ | LGetE now | LCall now => (now <= clock)%Z
   | LCond now e => (now <= clock)%Z /\ match e with Some (ts, r) => lprod log k r ts | None => True end
   | LMove now r | LRetHit now r => lhit log k r now
-  | LStore now r | LLen now r | LPop now r | LRet now r => lown log a r now
+  | LPopK now r | LStore now r | LLen now r | LPop now r | LRet now r => lown log a r now
   | LDone now hit (Some r) => if hit then lhit log k r now else lown log a r now
   | LDone _ _ None => True
   end.
@@ -247,7 +247,7 @@ Lemma lthread_ok_mono clock clock' log x t :
   (clock <= clock')%Z -> lthread_ok clock log t -> lthread_ok clock' (log ++ [x]) t.
 Proof.
   intros Hc. unfold lthread_ok.
-  destruct (lt_pc t) as [|now|now|now ver pos acc|now ks|now|now e|now r|now r|now|now r|now r|now r|now r|now hit [r|]];
+  destruct (lt_pc t) as [|now|now|now ver pos acc|now ks|now|now e|now r|now r|now|now r|now r|now r|now r|now r|now hit [r|]];
     auto using lhit_mono, lown_mono; try lia.
   - intros [H1 H2]. split; [lia|]. destruct e as [[ts r]|]; auto using lprod_mono.
   - destruct hit; auto using lhit_mono, lown_mono.
@@ -257,7 +257,7 @@ Lemma lthread_ok_clock clock clock' log t :
   (clock <= clock')%Z -> lthread_ok clock log t -> lthread_ok clock' log t.
 Proof.
   intros Hc. unfold lthread_ok.
-  destruct (lt_pc t) as [|now|now|now ver pos acc|now ks|now|now e|now r|now r|now|now r|now r|now r|now r|now hit [r|]];
+  destruct (lt_pc t) as [|now|now|now ver pos acc|now ks|now|now e|now r|now r|now|now r|now r|now r|now r|now r|now hit [r|]];
     auto; try lia.
   intros [H1 H2]. split; [lia|auto].
 Qed.
@@ -296,7 +296,7 @@ Lemma ltstep_inv sh t :
   ls_now sh' = ls_now sh /\ (ls_log sh' = ls_log sh \/ exists x, ls_log sh' = ls_log sh ++ [x]).
 Proof.
   intros Hc Hi Ht. destruct t as [a p]. unfold ltstep, lthread_ok in *. cbn [lt_arg lt_pc] in *.
-  destruct p as [|now|now|now ver pos acc|now ks|now|now e|now r|now r|now|now r|now r|now r|now r|now hit res];
+  destruct p as [|now|now|now ver pos acc|now ks|now|now e|now r|now r|now|now r|now r|now r|now r|now r|now hit res];
     cbn [lt_arg lt_pc].
   - repeat split; auto; lia.
   - repeat split; auto.
@@ -327,6 +327,9 @@ Proof.
     split; [|split; [auto|right; eauto]].
     exists (length (ls_log sh)), (ls_now sh). split; [rewrite nth_error_app2, Nat.sub_diag; auto|].
     split; [rewrite Hc; reflexivity|lia].
+  - (* cache.pop(key, None) *)
+    destruct (has_key keqb (key a) (ls_items sh)); cbn [bump ls_items ls_calls ls_log ls_now lt_pc lt_arg]; repeat split; auto.
+    apply Forall_filter'. exact Hi.
   - cbn [bump ls_items ls_calls ls_log ls_now]. split; auto. split; [|split; [|split; auto]].
     + apply set_item_ok; auto. destruct Ht as (n & tc & H1 & H2 & H3). exists a, n, tc. cbn. auto.
     + exact Ht.
